@@ -19,6 +19,9 @@ type Vec struct {
 	Strength []int   `json:"strength,omitempty"`
 	Order    []int   `json:"insertion_order,omitempty"`
 	Choices  []int   `json:"map_order_choices,omitempty"`
+	Prev     *Vec    `json:"computed_before,omitempty"`                   // pair of computations: the vector whose outcome was computed first (see pairs.go)
+	Pair     string  `json:"pair_shape,omitempty"`                        // "held" | "interleaved"
+	Reads    bool    `json:"pots_read_after_every_contributor,omitempty"` // GetPots is also called after every AddContributor (one list read while it is filled)
 }
 
 // BuildPots feeds the vector to the real pot.LevelList in the given insertion order.
@@ -32,6 +35,9 @@ func BuildPots(v *Vec) []*pot.Pot {
 	}
 	for _, i := range order {
 		ll.AddContributor(v.Contrib[i], i, v.Fold[i])
+		if v.Reads {
+			ll.GetPots()
+		}
 	}
 	return ll.GetPots()
 }
